@@ -5,6 +5,7 @@ answer is: replies and read-back states are written down as tokens and judged by
 """
 from __future__ import annotations
 
+import copy
 import datetime
 import json
 import math
@@ -302,8 +303,8 @@ class Replayer:
             datetime_start=DATES.get(tm["ts"]), datetime_complete=DATES.get(tm["tc"]),
             params={n: ds[n].to_external_repr(VALS[p["v"]]) for n, p in tm["params"].items()},
             distributions=ds,
-            user_attrs={k: ATTRS[v] for k, v in tm["ua"].items()},
-            system_attrs={k: ATTRS[v] for k, v in tm["sa"].items()},
+            user_attrs={k: copy.deepcopy(ATTRS[v]) for k, v in tm["ua"].items()},
+            system_attrs={k: copy.deepcopy(ATTRS[v]) for k, v in tm["sa"].items()},
             intermediate_values={int(k): VALS[v] for k, v in tm["iv"].items()},
         )
 
@@ -348,7 +349,24 @@ class Replayer:
                      sorted(st.get_all_studies(), key=lambda fs: self.s_of_raw.get(fs._study_id, 0))]
             elif a == "create_trial":
                 tm = op["tm"]
-                raw = st.create_new_trial(self.S(op["s"]), self.template(tm) if tm["has"] else None)
+                tmpl = self.template(tm) if tm["has"] else None
+                try:
+                    raw = st.create_new_trial(self.S(op["s"]), tmpl)
+                finally:
+                    if tmpl is not None:
+                        # the caller keeps using ITS template object (one template reused for several calls is common):
+                        # whatever the backend stored or cached must not be an alias of these containers
+                        tmpl.user_attrs["edited_after_the_call"] = [1]
+                        tmpl.system_attrs["edited_after_the_call"] = {"x": 1}
+                        tmpl.intermediate_values[424242] = 0.25
+                        tmpl.params["edited_after_the_call"] = 0.5
+                        for v in list(tmpl.user_attrs.values()) + list(tmpl.system_attrs.values()):
+                            if isinstance(v, list):
+                                v.append("edited")
+                            elif isinstance(v, dict):
+                                v["edited"] = 1
+                        if tmpl._values is not None and tmpl._values:
+                            tmpl._values[0] = 12345.0
                 self.rawT.append(raw)
                 self.t_of_raw[raw] = len(self.rawT)
                 v = len(self.rawT)
@@ -419,7 +437,16 @@ class Replayer:
             if raw is not None:
                 ev["raw"] = raw
             is_getter = op["a"].startswith("get_")
-            if with_post and (post_getters or not is_getter):
+            if op["a"] == "create_trial" and ret["k"] == "ok" and with_post:
+                # a POINT read of the new trial before any bulk read (the read-back below lists all trials, which
+                # refreshes client-side caches): what create_new_trial left in a cache is observed as it is
+                ev["p"] = 0
+                events.append(ev)
+                op2 = {"a": "get_trial", "t": ret["v"]}
+                ret2, _ = self.call(op2)
+                ev = dict(op2)
+                ev["ret"] = ret2
+            if with_post and (post_getters or not is_getter or op["a"] == "create_trial"):
                 ev["p"] = 1
                 ev["post"] = self.post()
             else:
